@@ -303,6 +303,38 @@ func cmdC05(seed uint64, tier, outdir string) {
 			}
 		}
 	}
+	// user-added documents written with character references (HTML-escaped license texts): the same
+	// presentation changes, matched against a corpus in which those words are known words
+	for k := 0; k < 4+n/10; k++ {
+		var ws []string
+		for j := 0; j < 40+r.intn(60); j++ {
+			if r.chance(1, 4) {
+				ws = append(ws, entityWord(r))
+			} else {
+				ws = append(ws, synthVocab[r.intn(len(synthVocab))])
+			}
+			if r.chance(1, 10) {
+				ws[len(ws)-1] += "\n"
+			}
+		}
+		doc := strings.Join(ws, " ")
+		ec := buildCorpus(0.8, []corpusDoc{{"License", "Escaped", "e.txt", []byte(doc)}, {"License", "Other", "o.txt", []byte(string(synthText(r, 40)))}})
+		in := []byte(oovBlock(r, 3, 1) + "\n" + doc + "\n" + oovBlock(r, 3, 1))
+		ref := ec.c.Match(in)
+		nt := 0
+		if len(ref.Matches) > 0 {
+			nt = 1
+		}
+		for _, x := range c05Transforms(r, in) {
+			got := ec.c.Match(x.out)
+			cw.printf("%s escaped-document %s\n", x.name, quoteBytes(x.out, 600))
+			if d := compareShifted(ref, got, x.newLine, false); d != "" {
+				vw.printf("VIOL - %s on a user-added document with character references: %s\n", x.name, d)
+			} else {
+				vw.printf("OK %d\n", nt)
+			}
+		}
+	}
 	vw.close()
 	cw.close()
 }
